@@ -27,17 +27,15 @@ func (a *DropPlanner) cutLabels(e *shared.LogEntry) error {
 	if e.Labels == nil {
 		return nil
 	}
-	recountFP := false
 	for k, v := range e.Labels {
 		for i, l := range a.Labels {
 			if k == l && (a.Values[i] == "" || v == a.Values[i]) {
 				delete(e.Labels, k)
-				recountFP = true
 			}
 		}
 	}
-	if recountFP {
-		e.Fingerprint = fingerprint(e.Labels)
-	}
+	// always, as in ByWithoutPlanner: an entry that lost nothing must land in the same series as an entry that reaches
+	// the same label set by losing a label (its incoming fingerprint may be the ClickHouse one, not this hash)
+	e.Fingerprint = fingerprint(e.Labels)
 	return nil
 }
